@@ -159,10 +159,11 @@ Section ConcBlock.
 
   (* the statement: at most maxExecuteNum condition evaluations *)
   Lemma for_stmt_bounded : forall c step body e,
-    (for_iters c step body max_execute_num e <= 10000)%nat.
+    (Z.of_nat (for_iters c step body max_execute_num e) <= 10000)%Z.
   Proof.
-    intros. generalize (for_iters_le_fuel c step body max_execute_num e).
-    assert (max_execute_num = 10000%nat) as -> by (unfold max_execute_num; lia). auto.
+    intros. pose proof (for_iters_le_fuel c step body max_execute_num e) as H.
+    remember (for_iters c step body max_execute_num e) as k. clear Heqk.
+    unfold max_execute_num in H. lia.
   Qed.
 
   Lemma mrecover_no_panic : forall A p (m : M fo A) e, fst (mrecover fo p m e) <> Panic.
@@ -223,8 +224,8 @@ Section ConcBlock.
   Lemma every_child_runs_once : forall cs failed acc e,
     snd (conc_run cs failed acc e) = fold_left (fun e c => snd (conc_child c e)) cs e.
   Proof.
-    intros. rewrite conc_run_spec. rewrite <- (conc_fold_env cs e).
-    destruct (conc_fold cs e) as [[f cites] e2]. reflexivity.
+    intros. rewrite conc_run_spec. pose proof (conc_fold_env cs e) as H. unfold run_env in H.
+    rewrite <- H. clear H. destruct (conc_fold cs e) as [[f cites] e2]. reflexivity.
   Qed.
 
   (* the flag of [conc_fold]: some child, run in the environment the previous ones left, failed *)
@@ -284,4 +285,246 @@ Section ConcBlock.
     exec_stmt (SConc cs) e =
     (let '(f, cites, e') := conc_fold cs e in (if f then Failed cites else Normal, e')).
   Proof. intros. rewrite exec_stmt_conc, conc_run_spec. reflexivity. Qed.
+
+  (* ================= C18: order independence for commuting children ================= *)
+  Definition run1 (c : cchild) (e : env) : res unit * env := conc_child c e.
+
+  Fixpoint any_failed (cs : list cchild) (e : env) : bool :=
+    match cs with
+    | [] => false
+    | c :: rest => negb (is_ok (fst (run1 c e))) || any_failed rest (snd (run1 c e))
+    end.
+
+  Lemma conc_fold_any_failed : forall cs e, fst (fst (conc_fold cs e)) = any_failed cs e.
+  Proof.
+    induction cs as [|c rest IH]; intros e; [reflexivity|].
+    cbn [conc_fold any_failed]. unfold run1. specialize (IH (snd (conc_child c e))).
+    destruct (conc_child c e) as [r e1]. cbn [fst snd] in *.
+    destruct (conc_fold rest e1) as [[f cites] e2]. cbn [fst] in *. rewrite IH. reflexivity.
+  Qed.
+
+  Lemma run_env_cons : forall c cs e, run_env (c :: cs) e = run_env cs (snd (run1 c e)).
+  Proof. reflexivity. Qed.
+
+  Section Order.
+    (* any partial equivalence on environments (it may carry an invariant) *)
+    Variable R : env -> env -> Prop.
+    Hypothesis Rsym : forall a b, R a b -> R b a.
+    Hypothesis Rtrans : forall a b c, R a b -> R b c -> R a c.
+
+    Definition respects (cs : list cchild) : Prop :=
+      forall c, In c cs -> forall e e', R e e' ->
+        is_ok (fst (run1 c e)) = is_ok (fst (run1 c e')) /\ R (snd (run1 c e)) (snd (run1 c e')).
+
+    Definition commute (cs : list cchild) : Prop :=
+      forall c1 c2, In c1 cs -> In c2 cs -> forall e, R e e ->
+        R (snd (run1 c2 (snd (run1 c1 e)))) (snd (run1 c1 (snd (run1 c2 e)))) /\
+        is_ok (fst (run1 c1 e)) = is_ok (fst (run1 c1 (snd (run1 c2 e)))) /\
+        is_ok (fst (run1 c2 e)) = is_ok (fst (run1 c2 (snd (run1 c1 e)))).
+
+    Lemma respects_incl : forall cs cs', (forall c, In c cs' -> In c cs) -> respects cs -> respects cs'.
+    Proof. intros cs cs' Hi H c Hc. apply H, Hi, Hc. Qed.
+    Lemma commute_incl : forall cs cs', (forall c, In c cs' -> In c cs) -> commute cs -> commute cs'.
+    Proof. intros cs cs' Hi H c1 c2 H1 H2. apply H; apply Hi; assumption. Qed.
+
+    Lemma same_list_related : forall cs, respects cs -> forall e e', R e e' ->
+      any_failed cs e = any_failed cs e' /\ R (run_env cs e) (run_env cs e').
+    Proof.
+      induction cs as [|c rest IH]; intros H1 e e' Hr.
+      - split; [reflexivity | exact Hr].
+      - destruct (H1 c (or_introl eq_refl) e e' Hr) as [Hok Hr1].
+        assert (H1' : respects rest) by (eapply respects_incl; [|exact H1]; intros; right; assumption).
+        destruct (IH H1' _ _ Hr1) as [Hf Hr2].
+        cbn [any_failed]. rewrite !run_env_cons. rewrite Hok, Hf. split; [reflexivity | exact Hr2].
+    Qed.
+
+    Lemma order_independent_gen : forall cs cs', Permutation cs cs' ->
+      respects cs -> commute cs -> forall e e', R e e' ->
+      any_failed cs e = any_failed cs' e' /\ R (run_env cs e) (run_env cs' e').
+    Proof.
+      intros cs cs' HP. induction HP as [|x l l' HP IH|x y l|l l' l'' HP1 IH1 HP2 IH2]; intros H1 H2 e e' Hr.
+      - split; [reflexivity | exact Hr].
+      - destruct (H1 x (or_introl eq_refl) e e' Hr) as [Hok Hr1].
+        assert (H1' : respects l) by (eapply respects_incl; [|exact H1]; intros; right; assumption).
+        assert (H2' : commute l) by (eapply commute_incl; [|exact H2]; intros; right; assumption).
+        destruct (IH H1' H2' _ _ Hr1) as [Hf Hr2].
+        cbn [any_failed]. rewrite !run_env_cons. rewrite Hok, Hf. split; [reflexivity | exact Hr2].
+      - (* y :: x :: l  versus  x :: y :: l *)
+        assert (Iy : In y (y :: x :: l)) by (left; reflexivity).
+        assert (Ix : In x (y :: x :: l)) by (right; left; reflexivity).
+        assert (Ree : R e e) by (eapply Rtrans; [exact Hr | apply Rsym, Hr]).
+        destruct (H2 y x Iy Ix e Ree) as (Hc & Hoky & Hokx).
+        destruct (H1 x Ix e e' Hr) as [Hx1 Hrx].
+        destruct (H1 y Iy _ _ Hrx) as [Hy2 Hrxy].
+        assert (Hrest : R (snd (run1 x (snd (run1 y e)))) (snd (run1 y (snd (run1 x e')))))
+          by (eapply Rtrans; [exact Hc | exact Hrxy]).
+        assert (H1' : respects l) by (eapply respects_incl; [|exact H1]; intros; right; right; assumption).
+        destruct (same_list_related l H1' _ _ Hrest) as [Hf Hr2].
+        cbn [any_failed]. rewrite !run_env_cons. split; [|exact Hr2].
+        rewrite Hf, <- Hokx, Hx1, Hoky, Hy2.
+        destruct (is_ok (fst (run1 x e'))), (is_ok (fst (run1 y (snd (run1 x e'))))); reflexivity.
+      - assert (Ree' : R e' e') by (eapply Rtrans; [apply Rsym, Hr | exact Hr]).
+        assert (Hi : forall c, In c l' -> In c l) by (intros c; apply Permutation_in, Permutation_sym, HP1).
+        destruct (IH1 H1 H2 e e' Hr) as [Hf1 Hr1].
+        destruct (IH2 (respects_incl l l' Hi H1) (commute_incl l l' Hi H2) e' e' Ree') as [Hf2 Hr2].
+        split; [congruence | eapply Rtrans; eassumption].
+    Qed.
+  End Order.
+
+  (* --- instance 1: the same injected table and the same locals (the trace may differ) --- *)
+  Definition same_state (e e' : env) : Prop := e_inj e = e_inj e' /\ e_loc e = e_loc e'.
+
+  Lemma same_state_refl : forall e, same_state e e.
+  Proof. intros e. split; reflexivity. Qed.
+  Lemma same_state_sym : forall a b, same_state a b -> same_state b a.
+  Proof. intros a b [H1 H2]. split; congruence. Qed.
+  Lemma same_state_trans : forall a b c, same_state a b -> same_state b c -> same_state a c.
+  Proof. intros a b c [H1 H2] [H3 H4]. split; congruence. Qed.
+
+  Theorem effects_independent_of_order : forall cs,
+    (forall c, In c cs -> forall e e', same_state e e' ->
+       is_ok (fst (run1 c e)) = is_ok (fst (run1 c e')) /\ same_state (snd (run1 c e)) (snd (run1 c e'))) ->
+    (forall c1 c2, In c1 cs -> In c2 cs -> forall e,
+       same_state (snd (run1 c2 (snd (run1 c1 e)))) (snd (run1 c1 (snd (run1 c2 e)))) /\
+       is_ok (fst (run1 c1 e)) = is_ok (fst (run1 c1 (snd (run1 c2 e)))) /\
+       is_ok (fst (run1 c2 e)) = is_ok (fst (run1 c2 (snd (run1 c1 e))))) ->
+    forall cs', Permutation cs cs' -> forall e,
+      let '(f, _, e1) := conc_fold cs e in
+      let '(f', _, e2) := conc_fold cs' e in
+      f = f' /\ same_state e1 e2.
+  Proof.
+    intros cs H1 H2 cs' HP e.
+    pose proof (order_independent_gen same_state same_state_sym same_state_trans cs cs' HP) as G.
+    specialize (G H1). unfold commute in G.
+    specialize (G (fun c1 c2 I1 I2 e _ => H2 c1 c2 I1 I2 e) e e (same_state_refl e)).
+    rewrite <- !conc_fold_any_failed, <- !conc_fold_env in G.
+    destruct (conc_fold cs e) as [[f c1] e1], (conc_fold cs' e) as [[f' c2] e2]. exact G.
+  Qed.
+
+  (* --- instance 2: pointwise-equal lookups of the locals, names of [ns] not injected ---
+     ([aset] appends new names, so two orders of first assignments give locals lists that
+     differ as lists and agree as maps) *)
+  Definition same_locals (ns : list string) (e e' : env) : Prop :=
+    (forall n, In n ns -> alookup n (e_inj e) = None) /\
+    e_inj e = e_inj e' /\
+    (forall n, alookup n (e_loc e) = alookup n (e_loc e')).
+
+  Lemma same_locals_sym : forall ns a b, same_locals ns a b -> same_locals ns b a.
+  Proof. intros ns a b (H1 & H2 & H3). repeat split; [rewrite <- H2; exact H1 | congruence | intros; symmetry; apply H3]. Qed.
+  Lemma same_locals_trans : forall ns a b c, same_locals ns a b -> same_locals ns b c -> same_locals ns a c.
+  Proof.
+    intros ns a b c (H1 & H2 & H3) (H4 & H5 & H6). repeat split; [exact H1 | congruence |].
+    intros n. rewrite H3. apply H6.
+  Qed.
+
+  Theorem effects_independent_of_order_lookups : forall ns cs,
+    respects (same_locals ns) cs -> commute (same_locals ns) cs ->
+    forall cs', Permutation cs cs' -> forall e, same_locals ns e e ->
+      let '(f, _, e1) := conc_fold cs e in
+      let '(f', _, e2) := conc_fold cs' e in
+      f = f' /\ same_locals ns e1 e2.
+  Proof.
+    intros ns cs H1 H2 cs' HP e He.
+    pose proof (order_independent_gen (same_locals ns) (same_locals_sym ns) (same_locals_trans ns)
+                  cs cs' HP H1 H2 e e He) as G.
+    rewrite <- !conc_fold_any_failed, <- !conc_fold_env in G.
+    destruct (conc_fold cs e) as [[f c1] e1], (conc_fold cs' e) as [[f' c2] e2]. exact G.
+  Qed.
+
+  (* non-vacuity: assignments of integer constants to distinct, non-injected simple names *)
+  Definition const_asg (p : pos) (n : string) (z : Z) : cchild :=
+    CCAsg (mkAsg p (TVar n) AsSet (RMath (MAtom p (AConst (KInt z))))).
+
+  Lemma alookup_aset_if : forall V n n' (v : V) m,
+    alookup n' (aset n v m) = if String.eqb n n' then Some v else alookup n' m.
+  Proof.
+    intros. destruct (String.eqb_spec n n') as [<-|Hn].
+    - apply alookup_aset_same.
+    - apply alookup_aset_other. congruence.
+  Qed.
+
+  Lemma const_asg_local : forall p n z e,
+    path_of n = [n] -> alookup n (e_inj e) = None ->
+    run1 (const_asg p n z) e = (Ok tt, mkEnv (e_inj e) (aset n (VInt KI64 z) (e_loc e)) (e_trace e)).
+  Proof.
+    intros p n z e Hp Hi. unfold run1, const_asg. cbn [Sem.conc_child]. unfold Sem.exec_assign.
+    cbn [as_pos as_rhs as_op as_target aop_of]. unfold mrecover, mbind.
+    cbn [Sem.eval_rhs Sem.eval_mexpr Sem.eval_atom ret konst eval_const].
+    rewrite (set_local fo e n (VInt KI64 z) Hp Hi). reflexivity.
+  Qed.
+
+  Lemma const_asg_respects : forall ns p n z,
+    In n ns -> path_of n = [n] ->
+    forall e e', same_locals ns e e' ->
+      is_ok (fst (run1 (const_asg p n z) e)) = is_ok (fst (run1 (const_asg p n z) e')) /\
+      same_locals ns (snd (run1 (const_asg p n z) e)) (snd (run1 (const_asg p n z) e')).
+  Proof.
+    intros ns p n z Hin Hp e e' (H1 & H2 & H3).
+    rewrite (const_asg_local p n z e Hp (H1 n Hin)).
+    rewrite (const_asg_local p n z e' Hp) by (rewrite <- H2; apply H1, Hin).
+    cbn [fst snd is_ok]. split; [reflexivity|]. repeat split; cbn [e_inj e_loc]; [exact H1 | exact H2 |].
+    intros m. rewrite !alookup_aset_if. destruct (String.eqb n m); [reflexivity | apply H3].
+  Qed.
+
+  Lemma const_asg_commute : forall ns p1 n1 z1 p2 n2 z2,
+    In n1 ns -> In n2 ns -> path_of n1 = [n1] -> path_of n2 = [n2] ->
+    n1 <> n2 \/ z1 = z2 ->
+    forall e, same_locals ns e e ->
+      let c1 := const_asg p1 n1 z1 in let c2 := const_asg p2 n2 z2 in
+      same_locals ns (snd (run1 c2 (snd (run1 c1 e)))) (snd (run1 c1 (snd (run1 c2 e)))) /\
+      is_ok (fst (run1 c1 e)) = is_ok (fst (run1 c1 (snd (run1 c2 e)))) /\
+      is_ok (fst (run1 c2 e)) = is_ok (fst (run1 c2 (snd (run1 c1 e)))).
+  Proof.
+    intros ns p1 n1 z1 p2 n2 z2 I1 I2 P1 P2 Hd e (H1 & _ & _). cbv zeta.
+    rewrite (const_asg_local p1 n1 z1 e P1 (H1 n1 I1)).
+    rewrite (const_asg_local p2 n2 z2 e P2 (H1 n2 I2)). cbn [fst snd].
+    rewrite (const_asg_local p2 n2 z2 _ P2) by (cbn [e_inj]; apply H1, I2).
+    rewrite (const_asg_local p1 n1 z1 _ P1) by (cbn [e_inj]; apply H1, I1).
+    cbn [fst snd is_ok e_inj e_loc e_trace]. split; [|split; reflexivity].
+    repeat split; cbn [e_inj e_loc]; [exact H1|].
+    intros m. rewrite !alookup_aset_if.
+    destruct (String.eqb_spec n1 m) as [E1|E1], (String.eqb_spec n2 m) as [E2|E2]; try reflexivity.
+    destruct Hd as [Hd|Hd]; [congruence | subst; reflexivity].
+  Qed.
+
+  (* x = z1 and y = z2 in either order: same outcome, same locals as maps *)
+  Theorem two_assignments_commute : forall p1 p2 x y z1 z2 e,
+    path_of x = [x] -> path_of y = [y] -> x <> y ->
+    alookup x (e_inj e) = None -> alookup y (e_inj e) = None ->
+    let '(f, _, e1) := conc_fold [const_asg p1 x z1; const_asg p2 y z2] e in
+    let '(f', _, e2) := conc_fold [const_asg p2 y z2; const_asg p1 x z1] e in
+    f = f' /\ e_inj e1 = e_inj e2 /\ forall n, alookup n (e_loc e1) = alookup n (e_loc e2).
+  Proof.
+    intros p1 p2 x y z1 z2 e Px Py Hxy Hx Hy.
+    assert (He : same_locals [x; y] e e).
+    { repeat split. intros n [<-|[<-|[]]]; assumption. }
+    pose proof (effects_independent_of_order_lookups [x; y] [const_asg p1 x z1; const_asg p2 y z2]) as G.
+    assert (R1 : respects (same_locals [x; y]) [const_asg p1 x z1; const_asg p2 y z2]).
+    { intros c [<-|[<-|[]]]; apply const_asg_respects; cbn; auto. }
+    assert (R2 : commute (same_locals [x; y]) [const_asg p1 x z1; const_asg p2 y z2]).
+    { intros c1 c2 [<-|[<-|[]]] [<-|[<-|[]]] e0 He0;
+        apply (const_asg_commute [x; y]); cbn; auto. }
+    specialize (G R1 R2 _ (perm_swap _ _ _) e He).
+    destruct (conc_fold [const_asg p1 x z1; const_asg p2 y z2] e) as [[f c1] e1].
+    destruct (conc_fold [const_asg p2 y z2; const_asg p1 x z1] e) as [[f' c2] e2].
+    destruct G as (Gf & _ & Gi & Gl). auto.
+  Qed.
+
+  (* and the locals lists do differ as lists: this is why the syntactic [same_state] is too
+     fine for first assignments *)
+  Lemma two_assignments_lists_differ : forall p1 p2 x y z1 z2 inj tr,
+    path_of x = [x] -> path_of y = [y] -> x <> y ->
+    alookup x inj = None -> alookup y inj = None ->
+    e_loc (run_env [const_asg p1 x z1; const_asg p2 y z2] (mkEnv inj [] tr)) = [(x, VInt KI64 z1); (y, VInt KI64 z2)] /\
+    e_loc (run_env [const_asg p2 y z2; const_asg p1 x z1] (mkEnv inj [] tr)) = [(y, VInt KI64 z2); (x, VInt KI64 z1)].
+  Proof.
+    intros p1 p2 x y z1 z2 inj tr Px Py Hxy Hx Hy. unfold run_env. cbn [fold_left].
+    change (Sem.conc_child fo meta real_of) with run1.
+    rewrite (const_asg_local p1 x z1 (mkEnv inj [] tr) Px Hx), (const_asg_local p2 y z2 (mkEnv inj [] tr) Py Hy).
+    cbn [snd e_inj e_loc e_trace].
+    rewrite (const_asg_local p2 y z2 (mkEnv inj (aset x (VInt KI64 z1) []) tr) Py Hy).
+    rewrite (const_asg_local p1 x z1 (mkEnv inj (aset y (VInt KI64 z2) []) tr) Px Hx).
+    cbn [snd e_loc e_inj aset].
+    destruct (String.eqb_spec x y); [congruence|]. destruct (String.eqb_spec y x); [congruence|]. split; reflexivity.
+  Qed.
 End ConcBlock.
